@@ -42,6 +42,7 @@ type e2eWorld struct {
 	outCall map[string]int // "tcp c1o2" -> number of outbound calls seen
 	tgts    []*e2eTarget
 	udps    []*e2eUDP
+	udpEcho bool // UDP targets answer every datagram they get
 	// scripted traffic logger (nil script = approve everything)
 	tlVeto func(id string, tx, rx uint64) bool
 	// the authenticator is slow: it yields the processor this many times before answering, so that everything else on
@@ -147,6 +148,12 @@ func (u *e2eUDP) ReadFrom(b []byte) (int, string, error) {
 func (u *e2eUDP) WriteTo(b []byte, addr string) (int, error) {
 	c, o := e2eParseTarget(addr)
 	u.w.tr.Ev(kit.E{"ev": "TgtData", "conn": c, "op": o, "n": len(b), "via": "udp"})
+	if u.w.udpEcho {
+		select {
+		case u.ch <- append([]byte{}, b...):
+		default:
+		}
+	}
 	return len(b), nil
 }
 func (u *e2eUDP) Close() error { u.once.Do(func() { close(u.closed) }); return nil }
